@@ -61,7 +61,7 @@ IMPORTED = {
 FETCHERS = ['none', 'ok', 'dirty', 'nothing', 'badbytes', 'raise-os', 'raise-value', 'raise-rt', 're-ok', 're-dirty']
 # (csscombine(cssText='') calls sys.exit: an empty text counts as "no source given", script.py:360)
 COMBINE_TEXTS = ['a{color:red}', '/*c*/', '@media print{a{color:red}}', '@page{margin:0}']
-RULES = ['e{}', 'a{x:1}', 'a.x{x:1}', 'a.x.y{x:1}', 'b{x:1}', 'a b{x:1}', 'a,b{x:1}', 'a.x,b.y.z{x:1}', '#i{x:1}']
+RULES = ['a{x:1}', 'a.x{x:1}', 'a.x.y{x:1}', 'b{x:1}', 'a b{x:1}', 'a,b{x:1}', 'a.x,b.y.z{x:1}', '#i{x:1}']
 PREFS = [('indent', ['    ', '  ', '\t']), ('keepComments', [True, False]), ('omitLastSemicolon', [True, False]),
          ('lineSeparator', ['\n', '\r\n'])]
 BAD_BYTES = b'\xff\xfe\xff'
@@ -89,7 +89,7 @@ def fetch_model(kind, parser_raising_ctx=None):
         return '', 'Ru0', ''
     if kind == 're-ok':
         # the fetcher itself calls cssutils.parseString('x{color:red}') and CSSStyleDeclaration('color:red')
-        return 'pstr L s ( log1 ) direct ( log1 )', 'C', flags_steps(IMPORTED['ok'][1])
+        return 'pstr L - s ( log1 ) direct ( log1 )', 'C', flags_steps(IMPORTED['ok'][1])
     if kind == 're-dirty':
         # the fetcher calls CSSStyleDeclaration('color') (three raising log calls) in whatever mode is current
         return 'direct ( log0 log0 log0 )', 'C', flags_steps(IMPORTED['ok'][1])
@@ -118,25 +118,32 @@ def model_step(op):
         return 'newser'
     if k in ('addProfile', 'removeProfile'):
         return 'prof %s' % ('+'.join(str(x) for x in op['result']) or '-')
-    p = 'R' if op.get('raising') else 'L'
+    if k == 'newParser':
+        return 'newp %d%d' % (1 if op.get('raising') else 0, 1 if op.get('pvalidate', True) else 0)
+    if op.get('pobj') is not None:
+        p = 'o%d' % op['pobj']
+    else:
+        # a parser made for this call: CSSParser(raiseExceptions=…, validate=…) or the module-level helper
+        p = 'f%d%d' % (1 if op.get('raising') else 0, 1 if op.get('pvalidate', True) else 0)
+    v = {None: '-', False: '0', True: '1'}[op.get('validate')]
     inp = {'str': 's', 'bytes': 'b', 'bad': 'x'}.get(op.get('inp', 'str'))
     if k == 'parseString':
-        return 'pstr %s %s ( %s )' % (p, inp, body_model(op))
+        return 'pstr %s %s %s ( %s )' % (p, v, inp, body_model(op))
     if k == 'parseStyle':
-        return 'psty %s %s ( %s )' % (p, inp, flags_steps(op['flags']))
+        return 'psty %s %s %s ( %s )' % (p, v, inp, flags_steps(op['flags']))
     if k == 'parseFile':
-        return 'pfile %s %d %s ( %s )' % (p, 1 if op['found'] else 0, inp, body_model(op))
+        return 'pfile %s %s %d %s ( %s )' % (p, v, 1 if op['found'] else 0, inp, body_model(op))
     if k == 'parseUrl':
         inner, res, _sub = fetch_model(op['fetcher'])
-        return 'purl %s ( %s ) %s s ( %s )' % (p, inner, res,
-                                             flags_steps(IMPORTED[op['fetcher'] if op['fetcher'] in IMPORTED else 'ok'][1]))
+        return 'purl %s %s ( %s ) %s s ( %s )' % (p, v, inner, res,
+                                                flags_steps(IMPORTED[op['fetcher'] if op['fetcher'] in IMPORTED else 'ok'][1]))
     if k == 'direct':
         return 'direct ( %s )' % flags_steps(op['flags'])
     if k == 'combine':
         post = 'log0' if op.get('bogus') else ''
-        return 'comb pstr L s ( %s ) ( %s ) ( )' % (flags_steps(op['flags']), post)
+        return 'comb pstr L - s ( %s ) ( %s ) ( )' % (flags_steps(op['flags']), post)
     if k == 'serialize':
-        return 'ser %s' % op['rec']
+        return 'ser %s' % ','.join(op['recs'])
     return None
 
 
@@ -150,9 +157,23 @@ class Runner:
         from cssutils import prodparser
         self.cssutils = cssutils
         self.prodparser = prodparser
-        cssutils.log.setLevel(100)           # silence stderr; the level is not part of the modelled state
+        # messages are part of what a caller observes: collect WARNING and above instead of printing them (the same
+        # in every worker process; handlers and level are not part of the modelled state)
+        import logging
+        self.messages = []
+        runner = self
+
+        class Collect(logging.Handler):
+            def emit(self, record):
+                runner.messages.append('%s %s' % (record.levelname, record.getMessage()))
+        lg = cssutils.log._log
+        for h in list(lg.handlers):
+            lg.removeHandler(h)
+        lg.addHandler(Collect())
+        lg.propagate = False
+        cssutils.log.setLevel(logging.WARNING)
         self.seen = []           # the ONE list every test fetcher appends to; cleared before each op
-        self.parsers = {}
+        self.pobjs = []          # long-lived CSSParser objects (with what they were created from)
         self.tmp = tempfile.mkdtemp(prefix='c12-')
         self.files = {}
         self.sers = [cssutils.ser]
@@ -191,19 +212,28 @@ class Runner:
             raise AssertionError(kind)
         return f
 
-    def parser(self, raising, fetcher, fresh=False):
-        key = (raising, fetcher)
-        if fresh or key not in self.parsers:
-            kw = {}
-            if raising is not None:
-                kw['raiseExceptions'] = raising
-            if fetcher != 'none':
-                kw['fetcher'] = self.fetcher(fetcher)
-            p = self.cssutils.CSSParser(**kw)
-            if fresh:
-                return p
-            self.parsers[key] = p
-        return self.parsers[key]
+    def make_parser(self, raising, pvalidate, fetcher):
+        kw = {}
+        if raising is not None:
+            kw['raiseExceptions'] = raising
+        if pvalidate is not None and pvalidate is not True:
+            kw['validate'] = pvalidate
+        if fetcher != 'none':
+            kw['fetcher'] = self.fetcher(fetcher)
+        return self.cssutils.CSSParser(**kw)
+
+    def parser_state(self, p):
+        """every attribute of a CSSParser object (the tokenizer by its own attributes, the fetcher by identity)"""
+        out = {}
+        for k, v in sorted(vars(p).items()):
+            if k.endswith('__tokenizer'):
+                out[k] = sorted((a, repr(b) if not callable(b) and not isinstance(b, list) else
+                                 (len(b) if isinstance(b, list) else 'callable')) for a, b in vars(v).items())
+            elif callable(v):
+                out[k] = 'callable@%d' % id(v)
+            else:
+                out[k] = repr(v)
+        return out
 
     def file(self, name, data):
         if name not in self.files:
@@ -245,6 +275,8 @@ class Runner:
             'level': ser._level,
             'profiles': list(cssutils.profile.profiles),
             'default_profiles': repr(cssutils.profile.defaultProfiles),
+            'parsers': ['%d%d' % (bool(p._CSSParser__parseRaising), bool(p._validate)) for p, _ in self.pobjs],
+            'parser_objects': [self.parser_state(p) for p, _ in self.pobjs],
         }
 
     # -- ops ----------------------------------------------------------------------------------------
@@ -252,12 +284,15 @@ class Runner:
         """returns {'out': 'ok' | 'none' | 'raised:<Class>', 'seen': [...], ...}"""
         k = op['op']
         del self.seen[:]
+        del self.messages[:]
         out = 'ok'
         extra = {}
         try:
             r = self._do(op, extra)
             if r is None and k == 'parseUrl':
                 out = 'none'
+            elif k in ('parseString', 'parseStyle', 'parseFile', 'parseUrl'):
+                extra['validating'] = bool(r.validating)
         except BaseException as e:      # noqa: B902 -- the class is the observation
             if isinstance(e, (KeyboardInterrupt, SystemExit)):
                 raise
@@ -289,16 +324,25 @@ class Runner:
         if k == 'removeProfile':
             cssutils.profile.removeProfile(op['name'])
             return True
+        if k == 'newParser':
+            self.pobjs.append((self.make_parser(op.get('raising'), op.get('pvalidate', True), op.get('fetcher', 'none')), op))
+            return True
+        if k == 'pcall':
+            return self.pcall(op, extra)
         if k in ('parseString', 'parseStyle', 'parseFile', 'parseUrl'):
             fetcher = op.get('fetcher', 'none')
             if op.get('helper'):
                 target = cssutils
+            elif op.get('pobj') is not None:
+                target = self.pobjs[op['pobj']][0]
             else:
-                target = self.parser(op.get('raising'), fetcher, fresh=op.get('fresh', False))
+                target = self.make_parser(op.get('raising'), op.get('pvalidate', True), fetcher)
             text = op.get('text', '')
             if op.get('imp'):
                 text = '@import "u.css";' + text
             kw = {}
+            if op.get('validate') is not None:
+                kw['validate'] = op['validate']
             if k == 'parseString':
                 data = text
                 if op.get('inp') == 'bytes':
@@ -315,16 +359,16 @@ class Runner:
                     data = text.encode('utf-8')
                 elif op.get('inp') == 'bad':
                     data = BAD_BYTES
-                return target.parseStyle(data)
+                return target.parseStyle(data, **kw)
             if k == 'parseFile':
                 if not op['found']:
-                    return target.parseFile(os.path.join(self.tmp, 'does-not-exist.css'))
+                    return target.parseFile(os.path.join(self.tmp, 'does-not-exist.css'), **kw)
                 if op.get('inp') == 'bad':
-                    return target.parseFile(self.file('bad.css', BAD_BYTES), encoding='utf-8')
+                    return target.parseFile(self.file('bad.css', BAD_BYTES), encoding='utf-8', **kw)
                 name = 'f%d.css' % (abs(hash(text)) % 100000)
-                return target.parseFile(self.file(name, text.encode('utf-8')), href='http://c12.invalid/base/x.css')
+                return target.parseFile(self.file(name, text.encode('utf-8')), href='http://c12.invalid/base/x.css', **kw)
             if k == 'parseUrl':
-                return target.parseUrl('http://c12.invalid/u.css')
+                return target.parseUrl('http://c12.invalid/u.css', **kw)
         if k == 'direct':
             if self.sheet is None or len(self.sheet.cssRules) != 1:
                 self.sheet = None
@@ -346,19 +390,31 @@ class Runner:
             extra['text'] = repr(cssutils.script.csscombine(cssText=op['text'], **kw))
             return True
         if k == 'serialize':
-            rule = self.rule(op['rule'])
-            text = rule.cssText or ''      # a rule without declarations serialises to nothing (keepEmptyRules off)
-            lvl = cssutils.ser._selectorlevel
+            # ONE sheet with these style rules; the level of each rule is read off the text
+            sheet = self.sheet_of(op['rules'])
+            text = sheet.cssText.decode('utf-8')
             unit = cssutils.ser.prefs.indent
-            extra['levels'] = [lvl]
-            extra['indented_ok'] = bool(text.startswith(unit * lvl) and (not unit or not text.startswith(unit * (lvl + 1))))
+            levels = []
+            lines = [ln.rstrip('\r') for ln in text.split('\n')]
+            for rt in op['rules']:
+                sel = rt[:rt.index('{')].replace(',', ', ')
+                lvl = None
+                for ln in lines:
+                    body = ln.lstrip(' \t')
+                    if body.startswith(sel + ' {') or body.startswith(sel + '{'):
+                        pre = ln[:len(ln) - len(body)]
+                        lvl = (len(pre) // len(unit)) if unit and pre == unit * (len(pre) // len(unit)) else (0 if not pre else -1)
+                        break
+                levels.append(lvl)
+            extra['levels'] = levels
+            extra['ser_state'] = [cssutils.ser._selectorlevel, len(cssutils.ser._selectors)]
             return True
         if k == 'sertext':
             extra['text'] = repr(cssutils.CSSParser().parseString(op['text']).cssText)
             return True
         if k == 'resolve':
-            sheet = self.parser(False, op.get('fetcher', 'ok')).parseString('@import "u.css";a{color:red}',
-                                                                           href='http://c12.invalid/base/')
+            sheet = self.make_parser(False, True, op.get('fetcher', 'ok')).parseString(
+                '@import "u.css";a{color:red}', href='http://c12.invalid/base/')
             extra['text'] = repr(cssutils.resolveImports(sheet).cssText)
             return True
         raise ValueError('unknown op %r' % (op,))
@@ -375,6 +431,77 @@ class Runner:
                 self.cssutils.log.raiseExceptions = old
             self.sheet = s
         return self.sheet
+
+    def sheet_of(self, rules):
+        key = tuple(rules)
+        if key not in self.rules:
+            old = self.cssutils.log.raiseExceptions
+            self.cssutils.log.raiseExceptions = False
+            try:
+                s = self.cssutils.css.CSSStyleSheet()
+                s.cssText = ' '.join(rules)
+            finally:
+                self.cssutils.log.raiseExceptions = old
+            self.rules[key] = s
+        return self.rules[key]
+
+    # -- one parser object, reused: the same call on the long-lived object and on a twin made for this call ----------
+    REUSE_SHEET = 'a { color: 1px; top: red; left: 0 } @media print { b { margin: red } } \u00e9 { x: "\u00e9" }'
+    REUSE_STYLE = 'color: 1px; margin: red; left: 0'
+
+    def summary(self, r):
+        """everything a caller can see of what an entry point returned, plus the messages it logged"""
+        if r is None:
+            return {'result': None, 'messages': list(self.messages)}
+        out = {'cssText': repr(r.cssText), 'validating': bool(r.validating), 'messages': list(self.messages)}
+        if hasattr(r, 'cssRules'):
+            def styles(rules):
+                for rule in rules:
+                    if hasattr(rule, 'style'):
+                        yield rule.style
+                    if hasattr(rule, 'cssRules'):
+                        yield from styles(rule.cssRules)
+            out['decl_validating'] = [bool(st.validating) for st in styles(r.cssRules)]
+            out['valid'] = [[bool(pr.valid) for pr in st.getProperties(all=True)] for st in styles(r.cssRules)]
+            out['href'] = r.href
+            out['media'] = r.media.mediaText if r.media is not None else None
+            out['title'] = r.title
+            out['encoding'] = r.encoding
+        else:
+            out['valid'] = [bool(pr.valid) for pr in r.getProperties(all=True)]
+        return out
+
+    def pcall(self, op, extra):
+        parser, spec = self.pobjs[op['pobj']]
+        twin = self.make_parser(spec.get('raising'), spec.get('pvalidate', True), spec.get('fetcher', 'none'))
+        kw = dict(op.get('args') or {})
+        entry = op['entry']
+
+        def call(p):
+            del self.messages[:]
+            try:
+                if entry == 'parseStyle':
+                    data = self.REUSE_STYLE
+                    if 'encoding' in kw:
+                        data = data.encode(kw['encoding'])
+                    return self.summary(p.parseStyle(data, **kw))
+                if entry == 'parseString':
+                    data = self.REUSE_SHEET
+                    if 'encoding' in kw:
+                        data = data.encode(kw['encoding'])
+                    return self.summary(p.parseString(data, **kw))
+                if entry == 'parseFile':
+                    enc = kw.get('encoding') or 'utf-8'
+                    path = self.file('reuse-%s.css' % enc, self.REUSE_SHEET.encode(enc))
+                    return self.summary(p.parseFile(path, **kw))
+                if entry == 'parseUrl':
+                    return self.summary(p.parseUrl('http://c12.invalid/reuse.css', **kw))
+            except Exception as e:      # noqa: B902
+                return {'raised': type(e).__name__, 'messages': list(self.messages)}
+            raise ValueError(entry)
+        extra['reused'] = call(parser)
+        extra['twin'] = call(twin)
+        return True
 
     def rule(self, text):
         if text not in self.rules:
@@ -404,14 +531,43 @@ class Runner:
 
 # ----------------------------------------------------------------------------------------------
 # generators
+PARSER_KINDS = [(None, True), (True, True), (None, False), (False, True), (True, False)]
+
+
 def gen_modelled_history(rng, n, n_base_profiles=0, indent_ok=False):
-    """ops that all have a model rendering; starts by setting the error mode explicitly"""
+    """ops that all have a model rendering; starts by setting the error mode explicitly and by creating the parser
+    objects that are reused through the whole history"""
     mode = rng.randint(0, 1)
     ops = [{'op': 'setMode', 'v': mode}]
+    pobjs = []
+    for _ in range(rng.randint(2, 4)):
+        raising, pv = rng.choice(PARSER_KINDS)
+        spec = {'op': 'newParser', 'raising': raising, 'pvalidate': pv, 'fetcher': rng.choice(FETCHERS)}
+        pobjs.append(spec)
+        ops.append(spec)
     profiles_extra = []
 
     def prof_result():
         return list(range(n_base_profiles)) + [n_base_profiles + ['c12-p1', 'c12-p2'].index(x) for x in profiles_extra]
+
+    def choose_parser(op, need_fetcher=False):
+        """a long-lived object (mostly), a parser made for the call, or the module-level helper"""
+        r = rng.random()
+        cands = [i for i, sp in enumerate(pobjs) if not need_fetcher or sp['fetcher'] != 'none']
+        if r < 0.65 and cands:
+            i = rng.choice(cands)
+            op['pobj'] = i
+            op['raising'] = pobjs[i]['raising']
+            op['pvalidate'] = pobjs[i]['pvalidate']
+            op['fetcher'] = pobjs[i]['fetcher']
+        elif r < 0.85 or need_fetcher:
+            op['raising'], op['pvalidate'] = rng.choice(PARSER_KINDS)
+            op['fetcher'] = rng.choice([x for x in FETCHERS if x != 'none']) if need_fetcher else rng.choice(FETCHERS)
+        else:
+            op['helper'] = True
+            op['raising'], op['pvalidate'], op['fetcher'] = None, True, 'none'
+        op['validate'] = rng.choice([None, None, True, False])
+        return op
     for _ in range(n):
         r = rng.random()
         if r < 0.08:
@@ -422,9 +578,9 @@ def gen_modelled_history(rng, n, n_base_profiles=0, indent_ok=False):
             ops.append({'op': 'setPref', 'i': i, 'v': rng.randrange(len(PREFS[i][1]))})
         elif r < 0.14:
             ops.append({'op': 'newSer'})
-        elif r < 0.16 and indent_ok:
+        elif r < 0.17 and indent_ok:
             ops.append({'op': 'setIndent', 'v': rng.randint(0, 1)})
-        elif r < 0.19:
+        elif r < 0.20:
             name = rng.choice(['c12-p1', 'c12-p2'])
             if name in profiles_extra:
                 profiles_extra.remove(name)
@@ -433,52 +589,48 @@ def gen_modelled_history(rng, n, n_base_profiles=0, indent_ok=False):
                 profiles_extra.append(name)
                 ops.append({'op': 'addProfile', 'name': name, 'result': prof_result()})
         elif r < 0.45:
-            ops.append(gen_parse_string(rng))
+            ops.append(gen_parse_string(rng, choose_parser))
         elif r < 0.55:
             text = rng.choice(list(STYLES))
-            ops.append({'op': 'parseStyle', 'text': text, 'flags': STYLES[text], 'raising': rng.choice([None, False, True, True]),
-                        'inp': rng.choice(['str', 'str', 'bytes', 'bad']), 'helper': rng.random() < 0.2})
-            if ops[-1]['helper']:
-                ops[-1]['raising'] = None
+            op = choose_parser({'op': 'parseStyle', 'text': text, 'flags': STYLES[text],
+                                'inp': rng.choice(['str', 'str', 'bytes', 'bad'])})
+            ops.append(op)
         elif r < 0.63:
-            op = gen_parse_string(rng)
+            op = gen_parse_string(rng, choose_parser)
+            if op.get('helper'):
+                op.pop('imp', None)
             op['op'] = 'parseFile'
             op['found'] = rng.random() < 0.8
             op['inp'] = rng.choice(['bytes', 'bytes', 'bad'])
-            op.pop('helper', None)
             ops.append(op)
         elif r < 0.72:
-            f = rng.choice([x for x in FETCHERS if x != 'none'])
-            ops.append({'op': 'parseUrl', 'fetcher': f, 'raising': rng.choice([None, False, True, True])})
-        elif r < 0.86:
+            op = choose_parser({'op': 'parseUrl'}, need_fetcher=True)
+            ops.append(op)
+        elif r < 0.84:
             name = rng.choice(list(DIRECT))
             ops.append({'op': 'direct', 'name': name, 'expr': DIRECT[name][0], 'flags': DIRECT[name][1]})
-        elif r < 0.92:
+        elif r < 0.90:
             text = rng.choice(COMBINE_TEXTS)
             ops.append({'op': 'combine', 'text': text, 'flags': SHEETS[text], 'bogus': bool(mode) and rng.random() < 0.3,
                         'minify': rng.choice([True, False])})
         else:
-            ops.append({'op': 'serialize', 'rule': rng.choice(RULES)})
+            ops.append({'op': 'serialize', 'rules': rng.sample(RULES, rng.randint(1, 4))})
     return ops
 
 
 def add_recs(ops, recs):
     for op in ops:
         if op['op'] == 'serialize':
-            op['rec'] = recs[op['rule']]
+            op['recs'] = [recs[r] for r in op['rules']]
     return ops
 
 
-def gen_parse_string(rng):
+def gen_parse_string(rng, choose_parser):
     text = rng.choice(list(SHEETS))
-    op = {'op': 'parseString', 'text': text, 'flags': SHEETS[text], 'raising': rng.choice([None, False, True, True]),
-          'inp': rng.choice(['str', 'str', 'str', 'bytes', 'bad']), 'fetcher': 'none'}
-    if rng.random() < 0.45:
+    op = choose_parser({'op': 'parseString', 'text': text, 'flags': SHEETS[text],
+                        'inp': rng.choice(['str', 'str', 'str', 'bytes', 'bad'])})
+    if op['fetcher'] != 'none' and rng.random() < 0.6:
         op['imp'] = True
-        op['fetcher'] = rng.choice([x for x in FETCHERS if x != 'none'])
-    elif rng.random() < 0.25:
-        op['helper'] = True
-        op['raising'] = None
     return op
 
 
@@ -524,32 +676,69 @@ CTORS = [
 ]
 
 
+PCALL_ARGS = {
+    'validate': [True, False],
+    'encoding': ['utf-8', 'latin-1'],
+    'href': ['http://c12.invalid/h/x.css'],
+    'media': ['print', 'screen, tv'],
+    'title': ['T'],
+}
+PCALL_ENTRIES = {
+    'parseStyle': ['validate', 'encoding'],
+    'parseString': ['validate', 'encoding', 'href', 'media', 'title'],
+    'parseFile': ['validate', 'encoding', 'href', 'media', 'title'],
+    'parseUrl': ['validate', 'encoding', 'media', 'title'],
+}
+CONTENT_FETCHERS = ('ok', 'dirty', 're-ok')
+
+
+def gen_pcall(rng, pobjs, plain=False):
+    """one call on a long-lived parser object; `plain` = without any per-call argument"""
+    i = rng.randrange(len(pobjs))
+    entries = [e for e in PCALL_ENTRIES if e != 'parseUrl' or pobjs[i]['fetcher'] in CONTENT_FETCHERS]
+    entry = rng.choice(entries)
+    args = {}
+    if not plain:
+        for name in PCALL_ENTRIES[entry]:
+            if rng.random() < 0.45:
+                args[name] = rng.choice(PCALL_ARGS[name])
+    return {'op': 'pcall', 'pobj': i, 'entry': entry, 'args': args}
+
+
 def gen_oracle_history(rng, n, explicit=True, indent=False):
-    """anything goes: modelled ops plus constructors / setters with malformed text in both modes"""
+    """anything goes: modelled ops plus constructors / setters with malformed text in both modes, plus calls with
+    and without per-call arguments on the long-lived parser objects"""
     ops = []
     base = gen_modelled_history(rng, n, indent_ok=indent)
+    pobjs = [op for op in base if op['op'] == 'newParser']
     if indent:
-        # the region of the known finding: the EXPERIMENTAL preference switched on early, style rules serialised after it
-        at = rng.randint(1, max(1, len(base) // 3))
+        # the EXPERIMENTAL preference switched on early, sheets with style rules serialised after it
+        at = rng.randint(len(pobjs) + 1, max(len(pobjs) + 1, len(base) // 3))
         base.insert(at, {'op': 'setIndent', 'v': 1})
         for _ in range(4):
-            base.insert(rng.randint(at + 1, len(base)), {'op': 'serialize', 'rule': rng.choice(RULES)})
+            base.insert(rng.randint(at + 1, len(base)), {'op': 'serialize', 'rules': rng.sample(RULES, rng.randint(1, 4))})
     for op in base:
         if not explicit and op['op'] in ('setMode', 'setPref', 'newSer', 'addProfile', 'removeProfile', 'setIndent'):
             continue
         ops.append(op)
+        if op['op'] == 'newParser':
+            continue
         if rng.random() < 0.5:
             ops.append({'op': 'ctor', 'expr': rng.choice(CTORS), 'text': rng.choice(BAD_TEXTS)})
+        if rng.random() < 0.35:
+            ops.append(gen_pcall(rng, pobjs, plain=rng.random() < 0.5))
         if rng.random() < 0.08:
             ops.append({'op': 'resolve', 'fetcher': rng.choice(['ok', 'dirty', 'nothing', 'raise-os'])})
         if rng.random() < 0.12:
             ops.append({'op': 'battery'})
+    for _ in range(3):
+        ops.append(gen_pcall(rng, pobjs, plain=True))
     ops.append({'op': 'battery'})
     return ops
 
 
 def is_explicit(op):
-    return op['op'] in ('setMode', 'setPref', 'newSer', 'addProfile', 'removeProfile', 'setIndent')
+    return op['op'] in ('setMode', 'setPref', 'newSer', 'addProfile', 'removeProfile', 'setIndent', 'newParser')
 
 
 # ----------------------------------------------------------------------------------------------
